@@ -293,7 +293,7 @@ func main() {
 	common.Finish(run, jobs, res, common.FinishOpts{
 		Bounds: map[string]any{"faults": F, "scan_limits": []int{1, 2, 3}, "keys": keys, "range_task": extra},
 		Rule: "A: two victim transactions (shapes x lock modes x commit protocols) crashed at every combination of seam events within the fault budget (each crash and each split costs one), then tikv.ResolveLocksForRange as an actor with scan limit 1..3 and an optional region split before any ScanLock/ResolveLock RPC; after a successful pass: no lock <= safe point anywhere, versions committed before are unchanged, every victim all-or-nothing with one commit ts and consistent with its acknowledgement. " +
-			"B: rangetask.Runner.RunOnRange with a recording handler over all layouts of <= 3 split keys x all (start,end) incl. unbounded x concurrency {1,3} x regions-per-task {1,2} x failing sub-range index; C: DeleteRangeTask over the same grid against a map model; C2: DeleteRangeTask on 8 keys over all layouts x ranges x concurrency {1,3} with one (thorough: two) region split(s) injected at the RPC seam right before the first DeleteRange request whose range strictly contains the split key is delivered (the store answers EpochNotMatch and the task must retry that piece), exactly the keys of [start,end) removed; D: snapshot Get/BatchGet/Iter at ts in {sp-1, sp, sp+1} after UpdateTxnSafePointCache(sp). distinct_nontrivial = distinct (victim outcomes, crash/split positions) classes",
+			"B: rangetask.Runner.RunOnRange with a recording handler over all layouts of <= 3 split keys x all (start,end) incl. unbounded x concurrency {1,3} x regions-per-task {1,2} x failing sub-range index; C: DeleteRangeTask over the same grid against a map model; C2: DeleteRangeTask on 8 keys over all layouts x ranges x concurrency {1,3} with one (thorough: two) region split(s) injected at the RPC seam right before the first DeleteRange request whose range strictly contains the split key is delivered (the store answers EpochNotMatch and the task must retry that piece), exactly the keys of [start,end) removed; D: snapshot Get/BatchGet/Iter/IterReverse at ts in {sp-1, sp, sp+1} after UpdateTxnSafePointCache(sp); D2: the same four read paths at a ts below a safe point that the store learns (with and without the MVCC GC actually running) between the call and the delivery of the first read RPC: must be refused. distinct_nontrivial = distinct (victim outcomes, crash/split positions) classes",
 		Assumptions: []string{
 			"GC starts only after every transaction below the safe point has ended or crashed (the GC contract)",
 			"a GC pass that reports an error is not judged (the property speaks about a successful GC)",
@@ -684,4 +684,88 @@ func safePointPart(run *ev.Run, extra map[string]any) {
 		}
 	}
 	extra["safe_point_cases"] = n
+	// D2: the store learns a newer safe point while the read is under way (between the client's call and
+	// the delivery of its first read RPC; GC then really removes the old versions): the read, whose
+	// timestamp is now below the learned safe point, must still be refused instead of being served.
+	m := 0
+	var ts uint64
+	for _, path := range []string{"get", "batchget", "iter", "riter"} {
+		for _, withGC := range []bool{false, true} {
+			m++
+			b2 := txnh.NewMockBackend(1, "b")
+			w2 := txnh.NewWorld(b2, 1)
+			st2 := w2.Clients[0].Store
+			for _, v := range []string{"1", "2"} {
+				t2, _ := st2.Begin()
+				t2.Set([]byte("a"), []byte("va"+v))
+				t2.Set([]byte("b"), []byte("vb"+v))
+				if err := t2.Commit(context.Background()); err != nil {
+					run.Note("safe point seed commit failed: %v", err)
+				}
+				if v == "1" {
+					// the read timestamp lies between the two versions
+					n0, _ := st2.CurrentTimestamp("global")
+					ts = n0
+				}
+			}
+			for i := 0; i < 2000 && len(b2.Locks()) > 0; i++ {
+				time.Sleep(time.Millisecond)
+			}
+			sp2, _ := st2.CurrentTimestamp("global")
+			fired := false
+			w2.BeforeRPC = func(c *txnh.Client, req *tikvrpc.Request) {
+				if fired || (req.Type != tikvrpc.CmdGet && req.Type != tikvrpc.CmdBatchGet && req.Type != tikvrpc.CmdScan) {
+					return
+				}
+				fired = true
+				st2.UpdateTxnSafePointCache(sp2, time.Now())
+				if withGC {
+					_ = b2.Store.GC(nil, nil, sp2)
+				}
+			}
+			snap := st2.GetSnapshot(ts)
+			var err error
+			served := ""
+			switch path {
+			case "get":
+				var v kv.ValueEntry
+				v, err = snap.Get(context.Background(), []byte("a"))
+				served = string(v.Value)
+			case "batchget":
+				var mm map[string]kv.ValueEntry
+				mm, err = snap.BatchGet(context.Background(), [][]byte{[]byte("a"), []byte("b")})
+				served = fmt.Sprint(len(mm), " pairs")
+			case "iter", "riter":
+				var it interface {
+					Valid() bool
+					Next() error
+					Close()
+				}
+				if path == "iter" {
+					it, err = snap.Iter([]byte("a"), nil)
+				} else {
+					it, err = snap.IterReverse([]byte("c"), nil)
+				}
+				cnt := 0
+				for err == nil && it.Valid() {
+					cnt++
+					err = it.Next()
+				}
+				if it != nil {
+					it.Close()
+				}
+				served = fmt.Sprint(cnt, " pairs")
+			}
+			w2.BeforeRPC = nil
+			var gcErr *tikverr.ErrTxnAbortedByGC
+			if fired && !errors.As(err, &gcErr) {
+				run.Violation("safepoint:learned-during-read:served:"+path, fmt.Sprintf("%s at ts %d: the store learned safe point %d (gc run=%v) before the read request was delivered, yet the read returned %q, err=%v instead of aborted-by-GC", path, ts, sp2, withGC, served, err), path)
+			}
+			if !fired {
+				run.Note("safe point D2: %s sent no read RPC", path)
+			}
+			w2.Close()
+		}
+	}
+	extra["safe_point_learned_during_read_cases"] = m
 }
